@@ -144,7 +144,7 @@ def callDecode' (G : GenLayer) (cfg : Config) (st : State) (i : Input) (payload 
   | some .none => (st, .none)
   | some .raised => (st, .raised)
   | some (.ok m) =>
-    match claimCore st.sources i m (leNat payload) iso with
+    match claimCore st.sources i m (leNat payload % 18446744073709551616) iso with
     | none => (st, .raised)
     | some (s1, iso1) => finish cfg { st with sources := s1 } i m iso1
 
@@ -163,15 +163,15 @@ theorem callDecode_eq (G : GenLayer) (cfg : Config) (st : State) (i : Input) (pa
       · simp only [if_pos hc, decide_eq_true hc, Bool.true_and]
         cases hl : lookupSrc st.sources i.src with
         | none =>
-          cases hn : mkIsoName m (leNat payload) with
+          cases hn : mkIsoName m (leNat payload % 18446744073709551616) with
           | none => rfl
           | some n => rfl
         | some old =>
-          by_cases hnm : old.name = leNat payload
+          by_cases hnm : old.name = leNat payload % 18446744073709551616
           · simp only [hnm, if_true]
             rfl
           · simp only [hnm, if_false]
-            cases hn : mkIsoName m (leNat payload) with
+            cases hn : mkIsoName m (leNat payload % 18446744073709551616) with
             | none => rfl
             | some n => rfl
       · simp only [if_neg hc, decide_eq_false hc, Bool.false_and]
@@ -302,7 +302,7 @@ theorem callDecode_sim (G : GenLayer) (u : UserConfig) (cfg : Config) (stF stU :
     | ok m =>
       dsimp only
       rw [hs]
-      cases hc : claimCore stU.sources i m (leNat p) iso with
+      cases hc : claimCore stU.sources i m (leNat p % 18446744073709551616) iso with
       | none => exact ⟨hs, rfl⟩
       | some r =>
         obtain ⟨s1, iso1⟩ := r
